@@ -287,17 +287,35 @@ def print_assumptions(prop_module, names, tmp):
     return res
 
 
-def forbidden_scan():
+def dependency_cone(targets):
+    """the .v files the given .vo targets are built from (coqdep -sort), relative to coq/"""
+    vs = [t[:-1] if t.endswith(".vo") else t for t in targets]
+    try:
+        p = subprocess.run(["coqdep", "-Q", ".", "PV", "-sort"] + vs, cwd=COQ, capture_output=True, timeout=120)
+        files = [f[2:] if f.startswith("./") else f for f in p.stdout.decode().split() if f.endswith(".v")]
+        if p.returncode == 0 and files:
+            return files
+    except Exception:
+        pass
+    return None
+
+
+def forbidden_scan(targets=None):
+    """forbidden constructs in the sources of the dependency cone of `targets` (whole development when None)"""
     hits = []
-    for root, _, files in os.walk(COQ):
-        for fn in files:
-            if fn.endswith(".v"):
-                p = os.path.join(root, fn)
-                txt = open(p, errors="replace").read()
-                # drop comments (non-nested approximation is enough: we never nest)
-                txt2 = re.sub(r"\(\*.*?\*\)", "", txt, flags=re.S)
-                for m in FORBIDDEN.finditer(txt2):
-                    hits.append("%s: %s" % (os.path.relpath(p, COQ), m.group(0)))
+    cone = dependency_cone(targets) if targets else None
+    if cone is not None:
+        paths = [os.path.join(COQ, f) for f in cone]
+    else:
+        paths = [os.path.join(root, fn) for root, _, files in os.walk(COQ) for fn in files if fn.endswith(".v")]
+    for p in paths:
+        if not os.path.exists(p):
+            continue
+        txt = open(p, errors="replace").read()
+        # drop comments (non-nested approximation is enough: we never nest)
+        txt2 = re.sub(r"\(\*.*?\*\)", "", txt, flags=re.S)
+        for m in FORBIDDEN.finditer(txt2):
+            hits.append("%s: %s" % (os.path.relpath(p, COQ), m.group(0)))
     return hits
 
 
@@ -446,7 +464,7 @@ def run_check(prop, tier, seed, replay=None):
             pa = print_assumptions(prop.prop_module, names, tmp)
             discharged = sum(1 for n in names if pa.get(n) is not None)
             cov["print_assumptions"] = pa
-            hits = forbidden_scan()
+            hits = forbidden_scan(prop.coq_targets)
             if hits:
                 proof_broken = ("forbidden construct in the Coq sources: " + "; ".join(hits[:5]), "")
             else:
